@@ -107,8 +107,13 @@ def render(lines):
 def sanitize(lines, rnd=None, allowed=SAFE_LOADS):
     """Confine every `load` operand to the private temp dir (see module docstring)."""
     for toks in lines:
+        for i, t in enumerate(toks):
+            if '\r' in t or '\n' in t:     # a token must never smuggle a line break into the file
+                toks[i] = t.replace('\r', '').replace('\n', '')
         if toks and toks[0] == 'load' and len(toks) > 1 and toks[1] not in allowed:
             toks[1] = allowed[rnd.randrange(len(allowed))] if rnd is not None else allowed[0]
+    lines[:] = [[t for t in toks if t != ''] for toks in lines]
+    lines[:] = [toks for toks in lines if toks]
     return lines
 
 
